@@ -205,7 +205,7 @@ def condition(draw, env: Env, depth: int = 1):
     if t in ("list[int]", "list[str]", "tuple[int, ...]", "str", "list[int] | None", "dict[str, int]", "tuple[int, str]"):
         forms += ["len", "len"]
     if depth > 0:
-        forms += ["and", "or", "notc"]
+        forms += ["and", "or", "notc", "chain", "chain"]
     form = draw(st.sampled_from(forms))
     lit_pool = {"int": ["0", "1", "2"], "str": ['"a"', '"b"', '""'], "E": ["E.a", "E.b"], "bool": ["True", "False"]}
     base = "str" if "str" in t and "int" not in t else "E" if t.startswith("E") else "bool" if t == "bool" else "int"
@@ -240,6 +240,17 @@ def condition(draw, env: Env, depth: int = 1):
     if form == "len":
         op = draw(st.sampled_from(["==", "!=", ">", ">=", "<", "<="]))
         return f"len({x}) {op} {draw(st.sampled_from(['0', '1', '2']))}" if "None" not in t else f"{x} is not None and len({x}) {op} 1"
+    if form == "chain":
+        # three or four operands: tests on one variable interleaved with operands that constrain nothing
+        # (an opaque call, a comparison of non-literals) or another variable
+        one = Env({x: t})
+        opaque = st.sampled_from(["cond()", "cond() == cond()", "call() is None"])
+        parts = [draw(condition(one, 0))]
+        for _ in range(draw(st.integers(2, 3))):
+            parts.append(draw(st.one_of(opaque, condition(one, 0), condition(env, 0))))
+        op = draw(st.sampled_from([" or ", " and "]))
+        text = op.join(f"({p})" for p in parts)
+        return f"not ({text})" if draw(st.integers(0, 3)) == 0 else text
     if form == "and":
         return f"({draw(condition(env, 0))}) and ({draw(condition(env, 0))})"
     if form == "or":
